@@ -240,10 +240,108 @@ def machine(tier):
     return CellsMachine
 
 
+# ------------------------------------------------------------------ pipeline level
+STATS = {}
+_wrapped = False
+
+
+def _keyf(size, v):
+    return (int(v) - 1) // size * size if v < 0 else int(v) // size * size
+
+
+def install_pipeline_wrapper():
+    """Harness-side wrappers on Cells: remember the biomolecule, audit every k-th query."""
+    global _wrapped
+    if _wrapped:
+        return
+    from pdb2pqr import cells as C
+
+    orig_assign = C.Cells.assign_cells
+    orig_query = C.Cells.get_near_cells
+
+    def assign(self, biomolecule):
+        self._vf_bio = biomolecule
+        return orig_assign(self, biomolecule)
+
+    def query(self, atom):
+        out = orig_query(self, atom)
+        st_ = STATS
+        st_["queries"] = st_.get("queries", 0) + 1
+        if st_["queries"] % st_.get("every", 5):
+            return out
+        bio = getattr(self, "_vf_bio", None)
+        if bio is None or atom.cell is None:
+            return out
+        st_["audited"] = st_.get("audited", 0) + 1
+        size = self.cellsize
+        structure = [a for r in bio.residues for a in r.atoms]
+        in_structure = {id(a) for a in structure}
+        # ghosts: returned atoms that are no longer part of the structure
+        for a in out:
+            if id(a) not in in_structure:
+                st_.setdefault("ghost", []).append(f"{a.name} of {a.residue} returned near {atom.name} of {atom.residue}")
+                break
+        got = {id(a) for a in out}
+        P = np.array([a.coords for a in structure]) if structure else np.zeros((0, 3))
+        if len(P):
+            d = np.linalg.norm(P - np.array(atom.coords), axis=1)
+            for a, dd in zip(structure, d):
+                if a is atom or dd >= size or a.name.startswith("LP"):
+                    continue
+                if id(a) not in got:
+                    kind = "unregistered" if a.cell is None else ("stale" if a.cell != tuple(_keyf(size, v) for v in a.coords) else "missed")
+                    st_.setdefault("missing:" + kind, []).append(
+                        f"{a.name} of {a.residue} is {dd:.2f} A from {atom.name} of {atom.residue} but not returned ({kind})")
+                    break
+        return out
+
+    C.Cells.assign_cells = assign
+    C.Cells.get_near_cells = query
+    _wrapped = True
+
+
+@st.composite
+def pipeline_case(draw):
+    from .. import e2e
+
+    desc = draw(e2e.structure(max_chains=3, nmax=5, wild=draw(st.booleans()), contact=True, waters=True))
+    if not desc.get("waters"):
+        desc["waters"] = [dict(draw(strat.water()), chain="W", seq=300 + k) for k in range(2)]
+    return dict(part="pipeline", desc=desc, ff=draw(st.sampled_from(["AMBER", "PARSE", "CHARMM"])),
+                opts=draw(st.sampled_from([[], [], [], ["--noopt"], ["--nodebump"]])), every=draw(st.sampled_from([3, 5, 7])))  # fmt: skip
+
+
+def check_pipeline(case):
+    from .. import e2e
+    from . import c04
+
+    install_pipeline_wrapper()
+    c04.install_wrapper()
+    res = Result()
+    STATS.clear()
+    STATS["every"] = case["every"]
+    del c04.CALLS[:]
+    s, r = e2e.run_case(case["desc"], case["ff"], case["opts"])
+    audited = STATS.get("audited", 0)
+    res.label("run-ok" if r.ok else "run-failed", f"opts={' '.join(case['opts']) or 'default'}",
+              "debump-rotation" if c04.CALLS else "no-rotation", f"audited>={min(audited // 50 * 50, 500)}")  # fmt: skip
+    for key, msgs in STATS.items():
+        if key == "ghost":
+            res.bad("C14:pipeline:ghost-returned", msgs[0])
+        elif key == "missing:unregistered":
+            # an atom under construction (being rotated into place) is deliberately not registered yet
+            res.label("unregistered-atom-near-query")
+        elif isinstance(key, str) and key.startswith("missing:"):
+            res.bad(f"C14:pipeline:{key}", f"{msgs[0]} ({len(msgs)} audited queries affected; {case['ff']} {case['opts']})")
+    res.nontrivial = audited > 0 and (bool(c04.CALLS) or "--noopt" not in case["opts"])
+    return res
+
+
 def parts(tier):
     return [
         Part("cells", check_cells, machine=machine, budget=dict(quick=1600, thorough=16000),
              machine_steps=dict(quick=40, thorough=60), shrink_key="ops"),  # fmt: skip
+        Part("pipeline", check_pipeline, strategy=pipeline_case(), budget=dict(quick=240, thorough=4000)),
     ]
 
 
